@@ -56,6 +56,7 @@ type icCall struct {
 	Exited   bool
 	Hits     uint64
 	Misses   uint64
+	joined   bool // loading get that received another call's load result (set by oracles)
 }
 
 type icLoad struct {
